@@ -306,13 +306,18 @@ func (e *Exec) tryMergeStates(a, b *State) (m *State, cond *Term, ok bool) {
 	} else {
 		n.lastNowSec, n.lastNowNsec = b.lastNowSec, b.lastNowNsec
 	}
-	seenIn := map[string]bool{}
+	seenIn := map[string]int{}
 	for _, d := range a.inputs {
-		seenIn[d.Name] = true
+		seenIn[d.Name] = len(n.inputs)
 		n.inputs = append(n.inputs, d)
 	}
 	for _, d := range b.inputs {
-		if !seenIn[d.Name] {
+		if i, ok := seenIn[d.Name]; ok {
+			// drawn on both sides: its guard is the disjunction
+			if n.inputs[i].Guard != nil && d.Guard != nil && n.inputs[i].Guard != d.Guard {
+				n.inputs[i].Guard = tc.Or(n.inputs[i].Guard, d.Guard)
+			}
+		} else {
 			n.inputs = append(n.inputs, d)
 		}
 	}
